@@ -67,6 +67,8 @@ pub struct GenCfg {
     pub row_repeat: u32,
     /// per-mille chance that an input is 1 bit wide regardless of `widths`
     pub one_bit_inputs: u32,
+    /// per-mille chance that the signal list itself contains 1-2 virtual signals
+    pub list_virtuals: u32,
 }
 
 impl GenCfg {
@@ -114,6 +116,7 @@ impl GenCfg {
             ite: 60,
             row_repeat: 0,
             one_bit_inputs: 0,
+            list_virtuals: 0,
         }
     }
 }
@@ -136,10 +139,12 @@ struct Col {
 const IN_NAMES: [&str; 12] = [
     "A", "B", "CLK", "EN", "S", "D0", "Din", "RST", "a_in", "Cin", "sel", "LD",
 ];
-const OUT_NAMES: [&str; 12] = [
+const OUT_NAMES: [&str; 16] = [
     "Q", "Y", "OUT", "TC", "DONE", "Z_o", "q", "Sum", "Cout", "R", "n", "P",
+    // plain outputs whose names look like the `_out` column of a (prefix of a) bidirectional signal
+    "DRDY_out", "Mx_out", "IO2", "BUSY_out",
 ];
-const BIDIR_NAMES: [&str; 5] = ["D", "IO", "BUS", "DQ", "M"];
+const BIDIR_NAMES: [&str; 7] = ["D", "IO", "BUS", "DQ", "M", "DQS", "IO2x"];
 const ODD_NAMES: [&str; 8] = [
     "ALU-~RESET",
     "Q[0]",
@@ -341,7 +346,7 @@ impl<'a> Gen<'a> {
                         })
                     }
                 }
-                SigKind::Out => {
+                SigKind::Out | SigKind::Virtual(_) => {
                     if keep {
                         cols.push(Col {
                             name: s.name.clone(),
@@ -641,7 +646,13 @@ impl<'a> Gen<'a> {
 
     fn col_bits(&self, c: &Col) -> usize {
         match c.role {
-            ColRole::In(i) | ColRole::Exp(i) => self.sigs[i].bits,
+            ColRole::In(i) | ColRole::Exp(i) => {
+                if matches!(self.sigs[i].kind, SigKind::Virtual(_)) {
+                    64
+                } else {
+                    self.sigs[i].bits
+                }
+            }
             ColRole::Virt(_) => 64,
         }
     }
@@ -1101,6 +1112,25 @@ pub fn generate(r: &mut Prng, cfg: &GenCfg) -> Case {
     };
     g.gen_config();
     let layout = g.gen_layout_and_readable();
+    let layout = if g.r.chance(cfg.list_virtuals, 1000) && !g.readable.is_empty() {
+        // virtual signals that are already in the signal list (as if taken from another
+        // TestCase.signals), at random positions; device layout indices are remapped
+        let names: Vec<String> = layout.iter().map(|&i| g.sigs[i].name.clone()).collect();
+        let n_lv = 1 + g.r.below(2);
+        for k in 0..n_lv {
+            let name = ["LV", "LW"][k].to_string();
+            if g.sigs.iter().any(|s| s.name == name) {
+                continue;
+            }
+            let depth = 1 + g.r.below(2);
+            let e = g.declare_expr(depth);
+            let at = g.r.below(g.sigs.len() + 1);
+            g.sigs.insert(at, Sig { name, bits: 64, kind: SigKind::Virtual(e) });
+        }
+        names.iter().map(|n| g.sigs.iter().position(|s| s.name == *n).unwrap()).collect()
+    } else {
+        layout
+    };
     let n_virt = g.between(cfg.n_declares);
     let mut vn: Vec<String> = VIRT_NAMES.iter().map(|s| s.to_string()).collect();
     g.r.shuffle(&mut vn);
